@@ -435,8 +435,8 @@ class BinaryRecordWriter(IORecord):
         return IORecord.rwBool(self, val)
 
     def rwLong(self, val):
-        """Reads an integer value from the binary stream."""
-        self.byteCount += self._longSize
+        """Writes a long integer value to the binary stream."""
+        self.numBytes += self._longSize
         self.data.append(struct.pack("q", val))
         return val
 
